@@ -2,5 +2,5 @@ package rules
 
 func init() {
 	Register("C16", "Decides structural necessary conditions of 'every rejection is a well-formed diagnostic': (fmt) the error-code/format table and all Code.F call sites agree in arity and verb/type so no rejection degrades to code 1 'Runtime Failure' or a struct dump. Does NOT decide line/column arithmetic or String() rendering.",
-		c16fmt)
+		c16fmt, c16render)
 }
